@@ -502,6 +502,51 @@ fn failing_and_slow_device(rep: &mut Report) {
             }
         }
     }
+    // (a0) wide samples and large backlogs: one work() call sees up to 2.8 MB of
+    // serialised samples (default-size stream). Whenever the sink has taken everything
+    // off the stream, the file must hold exactly the samples committed so far.
+    {
+        rep.eval();
+        let dir = tempfile::tempdir().expect("tempdir");
+        let wpath = dir.path().join("wide.bin");
+        let (ww, wr) = new_stream::<u32>();
+        let cap = ww.free();
+        if let Ok(mut wsink) = FileSink::new(wr, &wpath, Mode::Overwrite) {
+            let mut expect: Vec<u8> = Vec::new();
+            let mut next = 1u32;
+            for len in [1usize, 70_000, 300_000, 700_000, 3, 1_000_000] {
+                let len = std::cmp::min(len, cap);
+                {
+                    let mut wb = ww.write_buf().unwrap();
+                    for v in wb.slice()[..len].iter_mut() {
+                        *v = next;
+                        expect.extend(next.to_le_bytes());
+                        next = next.wrapping_mul(2654435761).wrapping_add(12345);
+                    }
+                    wb.produce(len, &[]);
+                }
+                let mut r = Ok(Ok(()));
+                for _ in 0..64 {
+                    r = catch(|| wsink.work().map(|_| ()).map_err(|e| format!("{e}")));
+                    if !matches!(r, Ok(Ok(()))) || ww.free() == cap {
+                        break;
+                    }
+                }
+                rep.count("per_call_on_disk_checks", 1);
+                rep.count("large_backlog_checks", 1);
+                let on_disk = std::fs::read(&wpath).unwrap_or_default();
+                if !matches!(r, Ok(Ok(()))) || ww.free() != cap || on_disk != expect {
+                    let at = on_disk.iter().zip(&expect).take_while(|(a, b)| a == b).count();
+                    rep.violation(
+                        "C17|per-call|copy-u32|consumed-but-not-in-the-file-when-work-returned",
+                        format!("after a backlog of {len} u32 samples was taken ({r:?}; {} of {cap} samples free) the file holds {} bytes, committed so far {}; first difference at byte {at}", ww.free(), on_disk.len(), expect.len()),
+                        json!({"part": "per-call", "sink": "copy-u32", "len": len}),
+                    );
+                    break;
+                }
+            }
+        }
+    }
     // (a1) the kernel accepts only part of a write (file size limit reached in
     // the middle of it; SIGXFSZ ignored so the following write fails with EFBIG):
     // whatever work() answers, it must not have consumed more than the file holds.
